@@ -56,9 +56,9 @@ fn c03_guard_index_mut_wrong_fails() {
 /// element type whose rendering records which element was printed and under which formatter parameters
 #[derive(Copy, Clone)]
 struct E(u8);
-static mut LOG: [(u8, u8); 40] = [(0, 0); 40];     // (kind, payload): 1 = literal byte, 2 = element id, 3 = precision seen by the element
+static mut LOG: [(u8, u8); 64] = [(0, 0); 64];     // (kind, payload): 1 = literal byte, 2 = element id, 3 = precision seen by the element
 static mut N: usize = 0;
-fn log(k: u8, p: u8) { unsafe { if N < 40 { LOG[N] = (k, p); N += 1; } } }
+fn log(k: u8, p: u8) { unsafe { if N < 64 { LOG[N] = (k, p); N += 1; } } }
 impl Display for E {
     fn fmt(&self, f: &mut Formatter) -> fmt::Result {
         log(2, self.0);
@@ -68,50 +68,51 @@ impl Display for E {
 }
 struct Sink;
 impl Write for Sink {
-    fn write_str(&mut self, s: &str) -> fmt::Result { for b in s.bytes() { log(1, b); } Ok(()) }
+    // literals written by the Display impl are at most two bytes long ("(", " ", "\n ", " )"): no loop, so that the unwinding bound
+    // of the harness only has to cover the loops of the code under verification
+    fn write_str(&mut self, s: &str) -> fmt::Result {
+        let b = s.as_bytes();
+        assert!(b.len() <= 2);
+        if b.len() >= 1 { log(1, b[0]); }
+        if b.len() >= 2 { log(1, b[1]); }
+        Ok(())
+    }
+}
+fn render<M: Display>(m: &M) -> ([(u8, u8); 64], usize) {
+    // a Formatter with a non-default parameter (precision 3) over the recording sink (nightly API of Kani's toolchain)
+    let mut opts = fmt::FormattingOptions::new();
+    opts.precision(Some(3));
+    unsafe { N = 0; }
+    let mut sink = Sink;
+    let _ = Display::fmt(m, &mut Formatter::new(&mut sink, opts));
+    unsafe { (LOG, N) }
 }
 macro_rules! display {
-    ($h:ident, $R:ty, $C:ty, $n:expr) => {
+    ($h:ident, $M:ty, $n:expr, $uw:expr, $want:ident) => {
         /// Display prints "(", then the rows top to bottom, each element of row i in column order preceded by a space, rows separated
-        /// by "\n ", then " )"; every element is rendered with the caller's formatter parameters; both layouts print the same
+        /// by "\n ", then " )"; every element is rendered under the caller's formatter parameters (same token stream for both layouts)
         #[kani::proof]
-        #[kani::unwind(42)]
+        #[kani::unwind($uw)]
         fn $h() {
-            let mut vals = [[0u8; $n]; $n];
-            let mut i = 0;
-            while i < $n { let mut j = 0; while j < $n { vals[i][j] = (i * $n + j) as u8 + 100; j += 1; } i += 1; }
-            let r = <$R>::from_row_arrays(vals.map(|row| row.map(E)));
-            let c = <$C>::from_row_arrays(vals.map(|row| row.map(E)));
-            // a Formatter with a non-default parameter (precision 3) over the recording sink (nightly API of Kani's toolchain)
-            let mut opts = fmt::FormattingOptions::new();
-            opts.precision(Some(3));
-            unsafe { N = 0; }
-            let mut sink = Sink;
-            let _ = Display::fmt(&r, &mut Formatter::new(&mut sink, opts));
-            let (log_r, n_r) = unsafe { (LOG, N) };
-            unsafe { N = 0; }
-            let _ = Display::fmt(&c, &mut Formatter::new(&mut sink, opts));
-            let (log_c, n_c) = unsafe { (LOG, N) };
-            // expected token stream
-            let mut want = [(0u8, 0u8); 40];
-            let mut k = 0;
-            want[k] = (1, b'('); k += 1;
-            let mut i = 0;
-            while i < $n {
-                if i > 0 { want[k] = (1, b'\n'); k += 1; want[k] = (1, b' '); k += 1; }
-                let mut j = 0;
-                while j < $n { want[k] = (1, b' '); k += 1; want[k] = (2, vals[i][j]); k += 1; want[k] = (3, 3); k += 1; j += 1; }
-                i += 1;
-            }
-            want[k] = (1, b' '); k += 1; want[k] = (1, b')'); k += 1;
-            assert!(n_r == k && n_c == k);
+            let vals: [[u8; $n]; $n] = kani::any();
+            let m = <$M>::from_row_arrays(vals.map(|row| row.map(E)));
+            let (got, n) = render(&m);
+            let want = $want(vals);
+            assert!(n == want.len());
             let mut q = 0;
-            while q < k { assert!(log_r[q] == want[q]); assert!(log_c[q] == want[q]); q += 1; }
+            while q < want.len() { assert!(got[q] == want[q]); q += 1; }
         }
     };
 }
-display!(c03_display_mat2, rm::Mat2<E>, cm::Mat2<E>, 2);
-display!(c03_display_mat3, rm::Mat3<E>, cm::Mat3<E>, 3);
+fn want2(vals: [[u8; 2]; 2]) -> [(u8, u8); 17] { [(1, b'('), (1, b' '), (2, vals[0][0]), (3, 3), (1, b' '), (2, vals[0][1]), (3, 3), (1, b'\n'), (1, b' '), (1, b' '), (2, vals[1][0]), (3, 3), (1, b' '), (2, vals[1][1]), (3, 3), (1, b' '), (1, b')')] }
+fn want3(vals: [[u8; 3]; 3]) -> [(u8, u8); 34] { [(1, b'('), (1, b' '), (2, vals[0][0]), (3, 3), (1, b' '), (2, vals[0][1]), (3, 3), (1, b' '), (2, vals[0][2]), (3, 3), (1, b'\n'), (1, b' '), (1, b' '), (2, vals[1][0]), (3, 3), (1, b' '), (2, vals[1][1]), (3, 3), (1, b' '), (2, vals[1][2]), (3, 3), (1, b'\n'), (1, b' '), (1, b' '), (2, vals[2][0]), (3, 3), (1, b' '), (2, vals[2][1]), (3, 3), (1, b' '), (2, vals[2][2]), (3, 3), (1, b' '), (1, b')')] }
+fn want4(vals: [[u8; 4]; 4]) -> [(u8, u8); 57] { [(1, b'('), (1, b' '), (2, vals[0][0]), (3, 3), (1, b' '), (2, vals[0][1]), (3, 3), (1, b' '), (2, vals[0][2]), (3, 3), (1, b' '), (2, vals[0][3]), (3, 3), (1, b'\n'), (1, b' '), (1, b' '), (2, vals[1][0]), (3, 3), (1, b' '), (2, vals[1][1]), (3, 3), (1, b' '), (2, vals[1][2]), (3, 3), (1, b' '), (2, vals[1][3]), (3, 3), (1, b'\n'), (1, b' '), (1, b' '), (2, vals[2][0]), (3, 3), (1, b' '), (2, vals[2][1]), (3, 3), (1, b' '), (2, vals[2][2]), (3, 3), (1, b' '), (2, vals[2][3]), (3, 3), (1, b'\n'), (1, b' '), (1, b' '), (2, vals[3][0]), (3, 3), (1, b' '), (2, vals[3][1]), (3, 3), (1, b' '), (2, vals[3][2]), (3, 3), (1, b' '), (2, vals[3][3]), (3, 3), (1, b' '), (1, b')')] }
+display!(c03_display_rows2, rm::Mat2<E>, 2, 20, want2);
+display!(c03_display_cols2, cm::Mat2<E>, 2, 20, want2);
+display!(c03_display_rows3, rm::Mat3<E>, 3, 37, want3);
+display!(c03_display_cols3, cm::Mat3<E>, 3, 37, want3);
+display!(c03_display_rows4, rm::Mat4<E>, 4, 60, want4);
+display!(c03_display_cols4, cm::Mat4<E>, 4, 60, want4);
 
 // ---------------------------------------------------------------------------------------------- as_ / numcast keep (i,j)
 macro_rules! casts {
